@@ -109,6 +109,7 @@ func refAccept(path string, remote bool, peer string) bool {
 type c18Env struct {
 	scratch string
 	decoy   string
+	tmpdir  string
 }
 
 var (
@@ -128,12 +129,17 @@ func c18Setup() *c18Env {
 		_ = os.Symlink(e.decoy, "/tmp/link")
 		_ = os.Symlink("/tmp", filepath.Join(e.decoy, "totmp")) // a parent elsewhere that RESOLVES to /tmp
 		_ = os.Chdir(e.scratch)
+		// the process's TMPDIR points somewhere else: the fixed base directory is /tmp whatever
+		// the environment says, and nothing may appear under $TMPDIR
+		e.tmpdir = filepath.Join(base, "tmpdir")
+		_ = os.MkdirAll(e.tmpdir, 0o755)
+		_ = os.Setenv("TMPDIR", e.tmpdir)
 		c18E = e
 	})
 	return c18E
 }
 
-func (e *c18Env) roots() []string { return []string{"/tmp", e.scratch, e.decoy} }
+func (e *c18Env) roots() []string { return []string{"/tmp", e.scratch, e.decoy, e.tmpdir} }
 
 // c18Client: one exchange of the real client half against a scripted server.
 func c18Client(res *vlib.Result, path string, remote bool, peer string, variant string) {
@@ -398,7 +404,7 @@ func c18Paths(peer string, thorough bool) []string {
 func C18Plan() *vlib.Plan {
 	p := &vlib.Plan{
 		Property: "C18", Level: "exploration", Workers: 1, Quiet: true,
-		Rule:   "E-ENUM in a private mount namespace (fresh tmpfs on /tmp): paths = base in {/tmp, /tmp/, //tmp, /tmp/., /tmp/../tmp, /var/tmp, /tmp/sub, /tmp/link (symlink to a decoy dir), tmp, '', /proc/self/root/tmp, a symlink elsewhere that resolves to /tmp} x leaf in {recognised and near-miss names, '.', '..', traversal, control and non-ASCII bytes, 5000 chars, remote forms, address forms over 12 ip spellings (the peer's own, other v4 / v6 hosts, equivalent long and v4-mapped spellings, a host name, a bracketed form) x 5 ports} (+ every single-character mutation of two accepted paths in thorough) x peer address {v4, v6} x {local, remote} x scripted server {answers 0, answers -1, closes after the path, closes after reading the client's answer (no verdict), trailing bytes}; recursive snapshots of /tmp + scratch CWD + decoy dirs before / when the server holds the client's answer / after. Oracle: independent path validator written from the statement; at most one directory, only for acceptable paths, mode 0700, answer 0 iff created, snapshot restored afterwards, client nil iff server answered 0. Server half (accept only the real owner-only directory, record its owner, record NOTHING for a refused object) against {nothing, dir 0700, dir 0755, dir 0500, dir of another uid, dir with a sub-directory, regular file, symlink to dir / file, fifo}. Non-trivial = every exchange (distinct by construction).",
+		Rule:   "E-ENUM in a private mount namespace (fresh tmpfs on /tmp): paths = base in {/tmp, /tmp/, //tmp, /tmp/., /tmp/../tmp, /var/tmp, /tmp/sub, /tmp/link (symlink to a decoy dir), tmp, '', /proc/self/root/tmp, a symlink elsewhere that resolves to /tmp} x leaf in {recognised and near-miss names, '.', '..', traversal, control and non-ASCII bytes, 5000 chars, remote forms, address forms over 12 ip spellings (the peer's own, other v4 / v6 hosts, equivalent long and v4-mapped spellings, a host name, a bracketed form) x 5 ports} (+ every single-character mutation of two accepted paths in thorough) x peer address {v4, v6} x {local, remote} x scripted server {answers 0, answers -1, closes after the path, closes after reading the client's answer (no verdict), trailing bytes}; recursive snapshots of /tmp + scratch CWD + decoy dirs + the directory $TMPDIR points to (set to somewhere other than /tmp) before / when the server holds the client's answer / after. Oracle: independent path validator written from the statement; at most one directory, only for acceptable paths, mode 0700, answer 0 iff created, snapshot restored afterwards, client nil iff server answered 0. Server half (accept only the real owner-only directory, record its owner, record NOTHING for a refused object) against {nothing, dir 0700, dir 0755, dir 0500, dir of another uid, dir with a sub-directory, regular file, symlink to dir / file, fifo}. Non-trivial = every exchange (distinct by construction).",
 		Assume: []string{"runs inside `unshare -m` with a tmpfs on /tmp when available (evidence field namespace); as root"},
 	}
 	p.Gen = func(tier string, yield func(vlib.Case)) {
